@@ -92,6 +92,14 @@ def running():
     return tuple(type(s).__name__ for s in veneer.runningScenarios)
 
 
+def now():
+    import scenic.syntax.veneer as veneer
+
+    sim = veneer.currentSimulation
+    return sim.currentTime if sim is not None else -1
+
+
+_mod.now = now
 _mod.Boom = Boom
 _mod.reset = reset
 _mod.fp = fp
